@@ -197,16 +197,18 @@ func init() {
 	}
 	propSpecs["C10"] = &PropSpec{
 		ID:       "C10",
-		Patterns: []string{"./internal/jsonschema", "./internal/openapi", "./internal/ast", "./internal/orderedmap", "./internal/tools"},
+		Patterns: []string{"./internal/jsonschema", "./internal/openapi", "./internal/simplecue", "./internal/ast", "./internal/orderedmap", "./internal/tools"},
 		Level:    "proof",
 		Prepare:  func(e *Engine) { e.assumeKindInv = true },
 		Opts: func(e *Engine, key string) VerifyOpts {
 			return VerifyOpts{OnlyKinds: []string{"pre", "post", "frame", "inv-init", "inv-pres", "cover", "call"}}
 		},
-		Extra: func(e *Engine, tier string) []*FuncResult { return []*FuncResult{e.unwrapFlowResult()} },
+		Extra: func(e *Engine, tier string) []*FuncResult { return []*FuncResult{e.unwrapFlowResult(), e.cueDefaultFlowResult()} },
 		Assumptions: []string{
 			"scope: the IR side of the property for the JSON Schema front end only - a default/constant/enum value decoded by the schema library (json.Number for numbers) enters the IR as the Go number it denotes: unwrapJSONNumber(s) under contract (never returns a json.Number, leaves other values alone) plus def-use obligations over go/ssa that every library value reaching ast.Default / ast.Value / Type.Default / ScalarType.Value / EnumValue.Value in a walker that can hold numbers passes through it (walkString and walkBool are exempt)",
-			"NOT covered (generated-program behaviour, outside this technique): what the Go and Python default constructors print, agreement between the two languages, CUE and OpenAPI front ends, passes that move defaults",
+			"OpenAPI front end: functional contracts on the walkers (the default of a string / number / integer / boolean / array / enum schema and every enum member value enter the IR as the very value the library decoded)",
+			"CUE front end: the CUE library is opaque to the engine; only a structural obligation is claimed - in cueConcreteToScalar every list element / struct field the iterator yields is converted and recorded (no path back to the loop head skips the append / the map store)",
+			"NOT covered (generated-program behaviour, outside this technique): what the Go and Python default constructors print, agreement between the two languages, the rest of the CUE front end, passes that move defaults",
 			"encoding/json.Number.Int64/Float64/String are assumed total functions returning values of the stated Go types",
 		},
 	}
